@@ -15,20 +15,21 @@ FLAGS = ['function', 'macro', 'cpp_class', 'cpp_attr', 'cpp_constructor', 'cpp_m
 DOC_LINES = ['', 'text here', '#hash', '[br] x', ']x', ':param a: b', ':keyword k: v', '..  dots', '  indented',
              '* item', 'héllo ✓', 'see [1]', 'a :param **kwargs: b', ' ', 'trailing  ', '# # double', 'x ] y',
              '\ttab', ':param x1: desc', ':type x1: int', '.. note:: n', '   deeper', 'Ünï 𝒳', '[', ']', '#', ': colon',
-             '@module not', 'NAME EXPECTFAIL']
+             '@module not', 'NAME EXPECTFAIL', 'sep\u2028arated', 'nel\x85here', 'vt\x0bff\x0c']
 LEADERLESS_LINES = ['Plain text', 'another line', 'Zed :param a: b', 'x  spaced', 'é?']
 BARE = ['a', 'b', 'x1', '_p_', 'Foo', 'bar_baz', 'é', 'v-1', '${v}', 'a\\;b', 'NAMEX', 'xEXPECTFAIL', 'name',
         'expectfail', '@V@', '<T>', 'a;b', '$<X:y>', '[x]', 'a\\ b', '\\"q', 'a\\"', '1', '-D', 'x=y', 'ı', 'p/q.r',
-        '\\(', 'a\\#b', '$ENV{H}', 'args', 'self', 'COMMAND', 'ON', 'OFF', '_x_y', 'a]', ']', 'a[[b]]']
+        '\\(', 'a\\#b', '$ENV{H}', 'args', 'self', 'COMMAND', 'ON', 'OFF', '_x_y', 'a]', ']', 'a[[b]]',
+        'ls\u2028ps\u2029', 'n\x85l', 'v\x0bt']
 QUOTED = ['', 'q s', 'a\\"b', 'line\\\ncont', 'semi;colon', '#notcomment', '(paren)', 'é ✓', '$ENV{X}', ' ', 'x',
-          'two\nlines', '\\\\', 'NAME', '[[x]]', 'a\\tb', '"'.replace('"', '\\"'), ')', '(']
+          'two\nlines', '\\\\', 'NAME', '[[x]]', 'a\\tb', 'u\u2028v', 'f\x0cf', '"'.replace('"', '\\"'), ')', '(']
 BRACKET = [(0, 'br'), (0, ' b ] r'), (1, 'b ]] r'), (2, ' ]=] '), (0, ''), (1, 'new\nline'), (0, '# "x" ('), (1, '[[n]]'),
            (0, 'a;b'), (3, '')]
 IDENTS = ['f', 'g', 'my_fn', 'Klass', 'T1', 'outer', 'inner', 'n2', 'Mod_x', '_u', 'NAME1']
 GENERIC_NAMES = ['message', 'add_library', 'include', 'list', 'find_package', 'if_not', 'target_sources', 'unset',
                  'cpp_end_classx', 'functionx', 'endfunctionx', 'return', 'SET_PROPERTY', 'process_docs']
 LINE_COMMENTS = [' plain', '', ' function(x)', ' #[[[ looks like doc', ']]', ' cpp_class(X)', '[=x', '[', '[==', ' "quote',
-                 ' \\bad escape', '#]]', ' endfunction()', '[x[', ' é ✓', '#[[', ' set(a b) #[[[', '\t', ' )', ' (']
+                 ' \\bad escape', '#]]', ' endfunction()', '[x[', ' é ✓', '#[[', ' set(a b) #[[[', '\t', ' )', ' (', ' x\u2028y z', ' p\x0bq r', ' n\x85w ']
 BRACKET_COMMENTS = [(0, ' br '), (0, ' function(x)\n multi '), (1, ' #[[[ fake\n#]] '), (1, ' ]] '), (2, ' ]=] '), (0, ''),
                     (0, ' "q ( '), (1, '[[x]]'), (0, '=[ x '), (0, ' é '), (0, ' #'), (1, ' cpp_end_class() ')]
 
@@ -214,6 +215,12 @@ class Gen:
             it = self.item(self.pick_kind(depth, in_class, in_test), depth, in_class, in_test, first and j == 0)
             if isinstance(it, dict) and it['k'] == 'decl' and g.random() < self.p_gap:
                 out += self.split_decl(it, depth, in_class)
+            elif isinstance(it, dict) and it['k'] == 'decl' and self.malformed and g.random() < self.malformed:
+                # outside the properties' quantifier (malformed stream, correspondence only): the implementing definition
+                # carries a doccomment of its own
+                out += [dict(k='cmd', doc=it['doc'], call=it['decl']),
+                        dict(k='block', doc=self.doc(4 * depth, force=True), open=it['impl'], body=it['body'], close=it['close'])]
+                self._after_doc(out[-1])
             else:
                 out.append(it)
         # a dangling doccomment must be followed by another doccomment or the end of the enclosing list's text:
